@@ -868,7 +868,8 @@ class LinearOperator(object):
         # Using symeig is preferable here for psd LinearOperators.
         # Will need to overwrite this function for non-psd LinearOperators.
         evals, evecs = self._symeig(eigenvectors=True)
-        signs = torch.sign(evals)
+        # (a zero eigenvalue keeps its singular vector: torch.sign(0) = 0 would zero the column of U)
+        signs = torch.where(evals < 0, -torch.ones_like(evals), torch.ones_like(evals))
         U = evecs * signs.unsqueeze(-2)
         S = torch.abs(evals)
         V = evecs
